@@ -55,7 +55,7 @@ T["C17"] = ("theorems on allocation events of the model + allocation-counter cor
             "Theorems: no returning call changes the capacity or emits an allocation event except to_vec (exactly one, when non-empty). What decides the property on the code: under a counting global allocator every returning call of the case space performs exactly the number of allocations the model predicts; the crate is built with --no-default-features and with only the alloc feature. cfg-conditional compilation and the allocator are observed, not modelled; boxed() is not part of the modelled operation language.", "6/C17")
 
 SPECIAL = {
- "C15": ("other", "translator (syn) regenerating type definitions/signatures into Coq + computational theorems on variance/auto traits + rustc witness programs",
+ "C15": ("proof", "translator (syn) regenerating type definitions/signatures into Coq + computational theorems on variance/auto traits + rustc witness programs",
          "Type definitions, impl headers and public signatures are regenerated from src/*.rs into TypesGen.v on every run; theorems computed on those closed terms give variance, Send/Sync conditions, borrow modes, constness; one witness program per contract is compiled against the working tree and rustc's verdict must equal the model's prediction.", "6/C15"),
 }
 
